@@ -6,7 +6,8 @@ For every /tmp/refactor_out/<ID>/<V>/ (patch.diff, equiv_demo.py, notes.txt):
   2. apply patch.diff; equiv_demo.py -> digest 2; the two outputs must be byte-identical
   3. the pinned baseline (87 stable tests) must pass on the patched copy
   4. store /verif/refactors/<ID>-<V>/{patch.diff,equiv_demo.py,meta.json} and sa/selftest/equivalent/<ID>/refactor_<V>.diff
-usage: confirm_refactor.py [ID ...]   env JOBS, REFACTOR_OUT
+usage: confirm_refactor.py [ID ...]   env JOBS, REFACTOR_OUT, REFACTOR_RENAME="A=C,B=D" (stored variant names), NEVER_ALARM="C12-A,..." (deliveries the checker
+answers 'not understood' for: filed under sa/selftest/never_alarm/ - exit 0 or 2 accepted, never 1 - instead of equivalent/)
 """
 import concurrent.futures as cf
 import hashlib
@@ -18,6 +19,8 @@ import sys
 import tempfile
 
 OUT = os.environ.get("REFACTOR_OUT", "/tmp/refactor_out")
+RENAME = dict(x.split("=") for x in os.environ.get("REFACTOR_RENAME", "").split(",") if "=" in x)
+NEVER_ALARM = set(x for x in os.environ.get("NEVER_ALARM", "").split(",") if x)
 PROPS = {json.loads(l)["id"]: json.loads(l) for l in open("/verif/properties.jsonl")}
 
 
@@ -45,19 +48,20 @@ def one(pid, v):
         ok = res["identical"] and res["patch_applies"] and res["baseline_ok"]
         res["confirmed"] = ok
         if ok:
-            d = os.path.join("/verif/refactors", f"{pid}-{v}")
+            sv = RENAME.get(v, v)
+            d = os.path.join("/verif/refactors", f"{pid}-{sv}")
             os.makedirs(d, exist_ok=True)
             shutil.copy(os.path.join(src, "patch.diff"), d)
             shutil.copy(demo, d)
             notes = open(os.path.join(src, "notes.txt")).read() if os.path.exists(os.path.join(src, "notes.txt")) else ""
-            json.dump({"property": pid, "title": PROPS[pid]["title"], "variant": v, "kind": "behaviour-preserving refactoring (must stay silent)",
+            json.dump({"property": pid, "title": PROPS[pid]["title"], "variant": sv, "kind": "behaviour-preserving refactoring (must stay silent)",
                        "source": "independent sub-agent given only the property text and a scratch worktree", "what_was_refactored": notes.strip(),
                        "confirmed_by": "tools/confirm_refactor.py on a scratch copy of /repo",
                        "ran": {"digest_lines": res["digest_lines"], "digest_sha_before_after": res["sha"], "baseline_on_patched_copy": res["baseline"]}},
                       open(os.path.join(d, "meta.json"), "w"), indent=1)
-            e = os.path.join("/verif/sa/selftest/equivalent", pid)
+            e = os.path.join("/verif/sa/selftest", "never_alarm" if f"{pid}-{v}" in NEVER_ALARM else "equivalent", pid)
             os.makedirs(e, exist_ok=True)
-            shutil.copy(os.path.join(src, "patch.diff"), os.path.join(e, f"refactor_{v}.diff"))
+            shutil.copy(os.path.join(src, "patch.diff"), os.path.join(e, f"refactor_{sv}.diff"))
         return pid, v, res
     except Exception as ex:  # noqa
         return pid, v, f"error {ex}"
